@@ -15,39 +15,41 @@ from machine import Scenario, mutators, observers
 S = Scenario
 
 
-def T(histories, steps, nmax, families=None):
-    return {"histories": histories, "steps": steps, "nmax": nmax, "families": families}
+def T(histories, steps, nmax, families=None, dense=()):
+    """Recorded executions: `histories` random histories of `steps` calls on up to `nmax` vertices
+    (every 4th on up to twice as many) + one dense history per size in `dense`."""
+    return {"histories": histories, "steps": steps, "nmax": nmax, "families": families, "dense": tuple(dense)}
 
 
 def c01(tier):
     if tier == "quick":
-        return [S("dn3", "dn", 3, reps=3, trace=T(12, 150, 7)),
-                S("dl2", "dl", 2, reps=2, trace=T(4, 120, 6))]
-    return [S("dn3", "dn", 3, reps=4, trace=T(150, 250, 8)),
+        return [S("dn3", "dn", 3, reps=3, trace=T(12, 150, 7, dense=(20, 40))),
+                S("dl2", "dl", 2, reps=2, trace=T(4, 120, 6, dense=(20, 36)))]
+    return [S("dn3", "dn", 3, reps=4, trace=T(150, 250, 8, dense=(24, 48, 70))),
             S("dn4", "dn", 4, walk=False, workers=16),
-            S("dl2", "dl", 2, reps=4, trace=T(40, 250, 8)),
+            S("dl2", "dl", 2, reps=4, trace=T(40, 250, 8, dense=(24, 70))),
             S("dl3", "dl", 3, labels=(0, 1), walk=False, workers=16)]
 
 
 def c02(tier):
     if tier == "quick":
-        return [S("un4", "un", 4, reps=3, trace=T(12, 150, 7)),
-                S("ul2", "ul", 2, reps=2, trace=T(4, 120, 6)),
+        return [S("un4", "un", 4, reps=3, trace=T(12, 150, 7, dense=(20, 40))),
+                S("ul2", "ul", 2, reps=2, trace=T(4, 120, 6, dense=(20, 36))),
                 S("ul3", "ul", 3, labels=(0, 1), walk=False)]
-    return [S("un4", "un", 4, reps=4, trace=T(150, 250, 8)),
+    return [S("un4", "un", 4, reps=4, trace=T(150, 250, 8, dense=(24, 48, 70))),
             S("un5", "un", 5, walk=False, workers=16),
-            S("ul3w", "ul", 3, labels=(0, 1), reps=2, trace=T(40, 250, 8)),
+            S("ul3w", "ul", 3, labels=(0, 1), reps=2, trace=T(40, 250, 8, dense=(24, 70))),
             S("ul3", "ul", 3, walk=False, workers=16)]
 
 
 def c03(tier):
     if tier == "quick":
-        return [S("dl2", "dl", 2, reps=2, trace=T(5, 140, 6)),
-                S("ul2", "ul", 2, reps=2, trace=T(5, 140, 6)),
+        return [S("dl2", "dl", 2, reps=2, trace=T(5, 140, 6, dense=(20, 36))),
+                S("ul2", "ul", 2, reps=2, trace=T(5, 140, 6, dense=(20, 36))),
                 S("ul3", "ul", 3, labels=(0, 1), walk=False)]
-    return [S("dl2", "dl", 2, reps=4, trace=T(60, 250, 8)),
+    return [S("dl2", "dl", 2, reps=4, trace=T(60, 250, 8, dense=(24, 70))),
             S("dl3", "dl", 3, labels=(0, 1), walk=False, workers=16),
-            S("ul3w", "ul", 3, labels=(0, 1), reps=2, trace=T(60, 250, 8)),
+            S("ul3w", "ul", 3, labels=(0, 1), reps=2, trace=T(60, 250, 8, dense=(24, 70))),
             S("ul3", "ul", 3, walk=False, workers=16)]
 
 
@@ -55,25 +57,25 @@ def c04(tier):
     # (the reciprocal insertions are not among the calls C04 speaks of; they are exercised by C07/C17)
     dm_ops = mutators("dm", reciprocal=False)
     if tier == "quick":
-        return [S("dm2", "dm", 2, ops=dm_ops, reps=3, trace=T(12, 150, 6)),
-                S("um2", "um", 2, reps=3, trace=T(12, 150, 6)),
+        return [S("dm2", "dm", 2, ops=dm_ops, reps=3, trace=T(12, 150, 6, dense=(20, 40))),
+                S("um2", "um", 2, reps=3, trace=T(12, 150, 6, dense=(20, 40))),
                 S("um3", "um", 3, mults=(0, 1, 2), maxmult=2, walk=False)]
-    return [S("dm2", "dm", 2, ops=dm_ops, mults=(0, 1, 2, 3), maxmult=3, reps=4, trace=T(150, 250, 8)),
+    return [S("dm2", "dm", 2, ops=dm_ops, mults=(0, 1, 2, 3), maxmult=3, reps=4, trace=T(150, 250, 8, dense=(24, 48))),
             S("dm3", "dm", 3, ops=dm_ops, mults=(0, 1, 2), maxmult=2, walk=False, workers=16),
-            S("um3w", "um", 3, mults=(0, 1, 2), maxmult=2, reps=3, trace=T(150, 250, 8)),
+            S("um3w", "um", 3, mults=(0, 1, 2), maxmult=2, reps=3, trace=T(150, 250, 8, dense=(24, 48))),
             S("um3", "um", 3, mults=(0, 1, 2, 3), maxmult=3, walk=False, workers=16)]
 
 
 def c05(tier):
     if tier == "quick":
-        return [S("dw2", "dw", 2, reps=3, trace=T(12, 150, 6)),
-                S("uw2", "uw", 2, reps=3, trace=T(12, 150, 6)),
+        return [S("dw2", "dw", 2, reps=3, trace=T(12, 150, 6, dense=(20, 40))),
+                S("uw2", "uw", 2, reps=3, trace=T(12, 150, 6, dense=(20, 40))),
                 # weights one ulp apart (1, 4) and a huge one (5) in the inexact-weight family
                 S("dw2e", "dw", 2, weights="WeightSet5", reps=1), S("uw2e", "uw", 2, weights="WeightSet5", reps=1),
                 S("uw3", "uw", 3, walk=False)]
-    return [S("dw2", "dw", 2, weights="WeightSet4", reps=4, trace=T(150, 250, 8)),
+    return [S("dw2", "dw", 2, weights="WeightSet4", reps=4, trace=T(150, 250, 8, dense=(24, 48))),
             S("dw3", "dw", 3, weights="WeightSet2", walk=False, workers=16),
-            S("uw3w", "uw", 3, reps=3, trace=T(150, 250, 8)),
+            S("uw3w", "uw", 3, reps=3, trace=T(150, 250, 8, dense=(24, 48))),
             S("uw3", "uw", 3, weights="WeightSet4", walk=False, workers=16)]
 
 
@@ -92,7 +94,7 @@ def _force_ops(group):
 def c16(tier):
     F = (False, True)
     if tier == "quick":
-        tr = T(10, 120, 5)
+        tr = T(10, 120, 5, dense=(36,))
         return [S("dn2f", "dn", 2, ops=_force_ops("dn"), forces=F, maxcopies=2, reps=3, trace=tr),
                 S("un2f", "un", 2, ops=_force_ops("un"), forces=F, maxcopies=2, reps=3, trace=tr),
                 S("dl1f", "dl", 1, ops=_force_ops("dl"), labels=(0, 1), forces=F, maxcopies=2, reps=2, trace=T(3, 100, 5)),
@@ -102,7 +104,7 @@ def c16(tier):
                 S("um2f", "um", 2, ops=_force_ops("um"), mults=(1, 2), maxmult=3, forces=F, maxcopies=2, reps=3, trace=tr),
                 S("dw2f", "dw", 2, ops=_force_ops("dw"), forces=F, maxcopies=2, reps=3, trace=tr),
                 S("uw2f", "uw", 2, ops=_force_ops("uw"), forces=F, maxcopies=2, reps=3, trace=tr)]
-    tr = T(100, 200, 7)
+    tr = T(100, 200, 7, dense=(24, 40, 70))
     out = []
     for g in ("dn", "un", "dl", "ul", "dm", "um", "dw", "uw"):
         kw = dict(ops=_force_ops(g), forces=F, maxcopies=3, reps=4, trace=tr)
@@ -171,7 +173,7 @@ def run_scenarios(pid, scenarios, seed, gh_exe, extra_builds=()):
         out["traces"] = []
         if scn.trace:
             recs = machine.record_traces(pid, scn, gh_exe, seed, scn.trace["histories"], scn.trace["steps"],
-                                         scn.trace["nmax"], scn.trace["families"])
+                                         scn.trace["nmax"], scn.trace["families"], dense=scn.trace.get("dense", ()))
             for rec in recs:
                 if rec["rc"] != 0:
                     out["traces"].append({"record_failed": rec})
